@@ -43,12 +43,12 @@ def snapsOf : List Obs → List (Nat × KVf × Timers)
 /-- all actions of normal operation -/
 def Plain (as : List Act) : Prop := ∀ a ∈ as, a.plain = true
 
-/-- **Consistent cut (partial with respect to undeployed callers, open finding D69).** The property speaks of the
+/-- **Consistent cut (partial with respect to undeployed callers, finding D69, fixed).** The property speaks of the
 events "each upstream source runner delivered". `Operator.HandleEvent` never checks the sender id, so a caller that
 is not among the deployed `SourceRunnerIds` (senders `k … k+z-1`, e.g. a runner of the previous assembly that is
 still alive) is served like a runner: its keyed events are among `userProcs (procsOf pre)` below and enter the
 checkpoint (`consistent_cut_counterexample`). This statement holds for every schedule, undeployed callers included;
-`consistent_cut` adds the missing clause for schedules in which only deployed runners act.
+`consistent_cut` adds the missing clause for an operator that admits only its runners (the code since the repair).
 Whenever a checkpoint `id` is taken with keyed state `S`, then for the trace `pre` before it:
 `S` is the fold of exactly the entries the handler received (nothing is still pending in the batcher); the keyed
 events the handler received are exactly those waiting at the start of the epoch followed by the keyed events
@@ -64,20 +64,20 @@ theorem consistent_cut_partial (s0 : St) (hf : Fresh s0) (as : List Act) (hpl : 
   rw [h] at hcut
   simpa [Cut] using cutOK_split hcut
 
-/-- the sender an action belongs to -/
-def actSender : Act → Option Nat
-  | .align sr _ => some sr
-  | .go sr => some sr
-  | .cancel sr => some sr
-  | _ => none
+/-- **The code turns callers away that are not deployed runners** (repair of D69, a8de76c): the fact regenerated from
+`Operator.HandleEvent` says the sender is checked before the alignment decision. If the check disappears from the
+source this theorem no longer type-checks. -/
+theorem code_checks_sender : Facts.c02SenderChecked = 1 := by decide
 
-/-- only deployed runners act in the schedule -/
-def RunnersOnly (k : Nat) (as : List Act) : Prop := ∀ a ∈ as, ∀ sr, actSender a = some sr → sr < k
+/-- hence the operator of the current source admits no caller outside its runners, however many call -/
+theorem code_admits_runners_only (k b z : Nat) : (codeInit k b z).z = 0 := by
+  simp [codeInit, admittedZ, code_checks_sender]
 
-/-- **Consistent cut.** When only deployed runners act, a checkpoint `id` contains the effects of exactly what the
-deployed runners delivered up to their own barrier `id`: the clauses of `consistent_cut_partial`, and every item the
-consumer took before the snapshot is a deployed runner's. -/
-theorem consistent_cut (s0 : St) (hf : Fresh s0) (as : List Act) (hpl : Plain as) (hro : RunnersOnly s0.k as)
+/-- **Consistent cut.** An operator that admits only its deployed runners (`z = 0`: what the current code does,
+`code_admits_runners_only`) puts into checkpoint `id` the effects of exactly what the deployed runners delivered up to
+their own barrier `id`: the clauses of `consistent_cut_partial`, and every item the consumer took before the snapshot
+is a deployed runner's — whatever other senders try to call. -/
+theorem consistent_cut (s0 : St) (hf : Fresh s0) (hz : s0.z = 0) (as : List Act) (hpl : Plain as)
     (pre post : List Obs) (id : Nat) (S : KVf) (T : Timers)
     (h : (runFrom s0 [] as).2 = pre ++ Obs.snap id S T :: post) :
     S = (entriesOf pre).foldl applyRec s0.kv ∧
@@ -90,11 +90,23 @@ theorem consistent_cut (s0 : St) (hf : Fresh s0) (as : List Act) (hpl : Plain as
   have hx' : x ∈ procsOf (runFrom s0 [] as).2 := by
     rw [h, procsOf_append]
     exact List.mem_append_left _ hx
-  rcases runFrom_procs as s0 [] x hx' with hnil | hgo
+  rcases runFrom_procs_lt as s0 [] x hx' with hnil | hlt
   · cases hnil
-  · exact hro _ hgo x.1 rfl
+  · simpa [hz] using hlt
 
-/-- **Counterexample (D69).** Two deployed runners (0, 1) and one caller that is not deployed (2): the caller's keyed
+/-- the statement about the code: a run of the operator of the current source, with any number of further callers -/
+theorem consistent_cut_code (k b z : Nat) (hk : 0 < k) (as : List Act) (hpl : Plain as) (pre post : List Obs)
+    (id : Nat) (S : KVf) (T : Timers) (h : (runFrom (codeInit k b z) [] as).2 = pre ++ Obs.snap id S T :: post) :
+    S = (entriesOf pre).foldl applyRec emptyKV ∧
+    userOf (entriesOf pre) = userProcs (procsOf pre) ∧
+    (∀ sr, sr < k → lastProc sr (procsOf pre) = some (Item.bar id)) ∧
+    ∀ x ∈ procsOf pre, x.1 < k := by
+  have hf : Fresh (codeInit k b z) := ⟨rfl, by intro sr it; simp [codeInit, init], rfl, hk⟩
+  have := consistent_cut (codeInit k b z) hf (code_admits_runners_only k b z) as hpl pre post id S T h
+  simpa [codeInit, init, userOf] using this
+
+/-- **Counterexample (D69, the rule before the repair).** An operator that admits a caller outside its runners (`z = 1`;
+the code before a8de76c): two deployed runners (0, 1) and one caller that is not deployed (2): the caller's keyed
 event is handed to the handler and checkpoint 1 contains it although no deployed runner delivered anything. -/
 def zombieCut : List Act :=
   [.align 2 (.ev [0x61] 5 0), .go 2, .align 0 (.bar 1), .go 0, .align 1 (.bar 1), .go 1]
